@@ -1,6 +1,7 @@
 import GrVerif.Model.SilfLoad
 import GrVerif.Proofs.PassLoad
 import GrVerif.Proofs.ClassMap
+import GrVerif.Proofs.RulesLoad
 set_option linter.unusedVariables false
 set_option linter.unusedSimpArgs false
 namespace GrVerif.Loader
@@ -203,11 +204,12 @@ theorem readSilfPseudos_total (b : List Nat) (f : SilfFixed) (m : SilfMid) (hm :
 derives from them places every array and code block inside those bytes -/
 structure SlotOK (b : List Nat) (passesStart : Nat) (s : PassSlot) : Prop where
   range : passesStart ≤ s.start ∧ s.start ≤ s.stop ∧ s.stop ≤ b.length
-  layout : LayoutOK ((b.drop s.start).take (s.stop - s.start)) s.layout
+  layout : LayoutOK ((b.drop s.start).take (s.stop - s.start)) s.pass.layout
+  rules : ∀ x ∈ s.pass.rules, RuleOK ((b.drop s.start).take (s.stop - s.start)) s.pass.layout x
 
-theorem readSilfPasses_total (b : List Nat) (f : SilfFixed) (m : SilfMid) (hasBoxes : Bool) :
+theorem readSilfPasses_total (b : List Nat) (f : SilfFixed) (m : SilfMid) (hasBoxes : Bool) (fl : FontLimits) :
     ∀ (n i : Nat), m.oPasses + (i + n + 1) * 4 ≤ b.length →
-      Tot (fun (l : List PassSlot) => l.length = n ∧ ∀ s ∈ l, SlotOK b m.passesStart s) (readSilfPasses b f m hasBoxes n i) := by
+      Tot (fun (l : List PassSlot) => l.length = n ∧ ∀ s ∈ l, SlotOK b m.passesStart s) (readSilfPasses b f m hasBoxes fl n i) := by
   intro n
   induction n with
   | zero => intro i _; exact ⟨_, rfl, fun a h => by cases h; exact ⟨rfl, fun s hs => by cases hs⟩⟩
@@ -219,7 +221,7 @@ theorem readSilfPasses_total (b : List Nat) (f : SilfFixed) (m : SilfMid) (hasBo
     refine Tot.ite fun h0 => ?_
     refine Tot.ite fun h1 => ?_
     refine Tot.ite fun h2 => ?_
-    obtain ⟨r, e, hr⟩ := readPassLayout_total ((b.drop ps).take (pe - ps)) ps (passCollOK f m hasBoxes i)
+    obtain ⟨r, e, hr⟩ := readPassAll_total ((b.drop ps).take (pe - ps)) ps (passCollOK f m hasBoxes i) fl (passType f i + 1)
     simp only [bind, Except.bind, e]
     cases r with
     | error c => exact ⟨_, rfl, fun a h => by cases h⟩
@@ -236,7 +238,7 @@ theorem readSilfPasses_total (b : List Nat) (f : SilfFixed) (m : SilfMid) (hasBo
         obtain ⟨hl, hall⟩ := hr2 rest rfl
         refine ⟨by simp only [List.length_cons, hl], fun s hs => ?_⟩
         rcases List.mem_cons.mp hs with rfl | hs
-        · exact ⟨⟨by simp only []; omega, by simp only []; omega, by simp only []; omega⟩, hr L rfl⟩
+        · exact ⟨⟨by simp only []; omega, by simp only []; omega, by simp only []; omega⟩, (hr L rfl).1, (hr L rfl).2⟩
         · exact hall s hs
 
 /-- what `Silf::readGraphite` has established about an accepted sub-table -/
@@ -259,8 +261,8 @@ theorem liftE_tot {α : Type} {Q : α → Prop} {r : Except Fault (Except Nat α
 /-- **`Silf::readGraphite` is total and in bounds for every byte string**: whatever the bytes of the sub-table, the table
 version and the glyph cache's numbers are, no read goes outside the sub-table; and an accepted sub-table has its pass numbers
 in order, its class map well formed, and for every pass a byte range inside the sub-table whose layout is inside that range. -/
-theorem readSilf_total (b : List Nat) (version numGlyphs numAttrs : Nat) (hasBoxes : Bool) :
-    Tot (SilfOK b version numAttrs) (readSilf b version numGlyphs numAttrs hasBoxes) := by
+theorem readSilf_total (b : List Nat) (version numGlyphs numAttrs : Nat) (hasBoxes : Bool) (numFeats : Nat) :
+    Tot (SilfOK b version numAttrs) (readSilf b version numGlyphs numAttrs hasBoxes numFeats) := by
   unfold readSilf
   obtain ⟨r1, e1, h1⟩ := liftE_tot (readSilfFixed_total b version numGlyphs)
   rw [e1]
@@ -299,7 +301,7 @@ theorem readSilf_total (b : List Nat) (version numGlyphs numAttrs : Nat) (hasBox
   rw [if_neg hcl]
   have hst := hck.start
   have htab := hp.table
-  obtain ⟨r5, e5, h5⟩ := readSilfPasses_total b f m hasBoxes f.numPasses 0 (by omega)
+  obtain ⟨r5, e5, h5⟩ := readSilfPasses_total b f m hasBoxes { classes := cm.nClass, glyfAttrs := numAttrs, features := numFeats, numUser := m.aUser } f.numPasses 0 (by omega)
   rw [e5]
   cases r5 with
   | error c => exact ⟨_, rfl, fun a h => by cases h⟩
@@ -314,10 +316,10 @@ theorem readSilf_total (b : List Nat) (version numGlyphs numAttrs : Nat) (hasBox
 /-- the loop over the sub-table offsets: the offset table, whose length `Face::readGraphite` never tests, is nevertheless never
 read past the end of the Silf table – every accepted sub-table is longer than 20 bytes and they follow one another, so by the
 time the loop looks at entry `i + 1` the table is known to be longer than `21 * (i + 1)` bytes, which is beyond that entry -/
-theorem readSilfSubs_total (b : List Nat) (version numGlyphs numAttrs : Nat) (hasBoxes : Bool) (base : Nat)
+theorem readSilfSubs_total (b : List Nat) (version numGlyphs numAttrs : Nat) (hasBoxes : Bool) (numFeats : Nat) (base : Nat)
     (hb : base = if version ≥ 0x00030000 then 12 else 8) :
     ∀ (n i : Nat), base + i * 4 + 8 ≤ b.length → (∀ v, be32 b (base + i * 4) = .ok v → 20 * i ≤ v) →
-      Tot (fun (l : List SilfTable) => l.length = n) (readSilfSubs b version numGlyphs numAttrs hasBoxes base n i) := by
+      Tot (fun (l : List SilfTable) => l.length = n) (readSilfSubs b version numGlyphs numAttrs hasBoxes numFeats base n i) := by
   intro n
   induction n with
   | zero => intro i _ _; exact ⟨_, rfl, fun a h => by cases h; rfl⟩
@@ -334,7 +336,7 @@ theorem readSilfSubs_total (b : List Nat) (version numGlyphs numAttrs : Nat) (ha
     by_cases hc : next > b.length ∨ offset ≥ next
     · rw [if_pos hc]; exact ⟨_, rfl, fun a h => by cases h⟩
     rw [if_neg hc]
-    obtain ⟨r, e, hr⟩ := readSilf_total ((b.drop offset).take (next - offset)) version numGlyphs numAttrs hasBoxes
+    obtain ⟨r, e, hr⟩ := readSilf_total ((b.drop offset).take (next - offset)) version numGlyphs numAttrs hasBoxes numFeats
     simp only [e]
     cases r with
     | error c => exact ⟨_, rfl, fun a h => by cases h⟩
@@ -362,8 +364,8 @@ theorem readSilfSubs_total (b : List Nat) (version numGlyphs numAttrs : Nat) (ha
           simp only [List.length_cons, hr2 rest rfl]
 
 /-- **`Face::readGraphite` is total and in bounds for every byte string given as the Silf table** -/
-theorem readSilfTable_total (b : List Nat) (numGlyphs numAttrs : Nat) (hasBoxes : Bool) :
-    ∃ r, readSilfTable b numGlyphs numAttrs hasBoxes = .ok r := by
+theorem readSilfTable_total (b : List Nat) (numGlyphs numAttrs : Nat) (hasBoxes : Bool) (numFeats : Nat) :
+    ∃ r, readSilfTable b numGlyphs numAttrs hasBoxes numFeats = .ok r := by
   unfold readSilfTable
   by_cases h0 : b.length < 20
   · simp only [if_pos h0]; exact ⟨_, rfl⟩
@@ -376,7 +378,7 @@ theorem readSilfTable_total (b : List Nat) (numGlyphs numAttrs : Nat) (hasBoxes 
   obtain ⟨ns, e2⟩ := be16_ok b ((if version ≥ 0x00030000 then 12 else 8) - 4) (by split <;> omega)
   rw [e2]
   simp only []
-  obtain ⟨r, e, _⟩ := readSilfSubs_total b version numGlyphs numAttrs hasBoxes (if version ≥ 0x00030000 then 12 else 8) rfl
+  obtain ⟨r, e, _⟩ := readSilfSubs_total b version numGlyphs numAttrs hasBoxes numFeats (if version ≥ 0x00030000 then 12 else 8) rfl
     ns 0 (by split <;> omega) (fun v _ => by omega)
   exact ⟨r, e⟩
 
